@@ -30,12 +30,13 @@ Example C07_former_D03_witness_holds :
   agree c = true /\ dom_of (verdict07 c) = true /\ holds_of (verdict07 c) = true /\ known_of (verdict07 c) = []
   /\ option_map e_sites (o_enc c) = Some [(0, 1); (1, 1)].
 Proof. vm_compute. repeat split; reflexivity. Qed.
-(* D24: iterator-level add_global followed by add_imported_global: the second call returns an id that
-   already designates the first global *)
-Example C07_refuted_D24 :
+(* former D24 (iterator-level add_global followed by add_imported_global: the second call returned an id that
+   already designated the first global; repaired: the iterator goes through Module::add_global_internal): the
+   witness now satisfies the property and the two ids differ *)
+Example C07_former_D24_witness_holds :
   let c := self_r [] [99] [] [] [ItAddGlobal 31; AddImport SG 21] [mkSite KCode SG 0 (OFunc 0)] in
-  agree c = true /\ dom_of (verdict07 c) = true /\ holds_of (verdict07 c) = false /\ known_D24 c = true
-  /\ o_rets c = [Some 0; Some 0].
+  agree c = true /\ dom_of (verdict07 c) = true /\ holds_of (verdict07 c) = true
+  /\ o_rets c = [Some 0; Some 1].
 Proof. vm_compute. repeat split; reflexivity. Qed.
 Example C07_nonvacuous :
   let c := self_r [(1, 1)] [99] [5; 6] [] [AddImport SG 21; Delete SG 1; AddLocal SG 31]
